@@ -4,7 +4,7 @@ from __future__ import annotations
 import numpy as np
 import xarray as xr
 
-from .. import builders, ref
+from .. import builders, ref, sequences
 from ..runner import LibraryRaised, Recorder, lib
 
 PROPERTY = 'C19'
@@ -21,6 +21,7 @@ RULE = (
     "labels, arrows at the face centres with that cell's components.  Non-trivial: datasets with a hole "
     "before the last cell; permuted dimensions."
     ' Also: a vector component and a scalar taken from a second dataset on the same grid with other coordinate labels.'
+    " Datasets also arrive with a history: warmed convention, copy, deep copy, pickle, netCDF round trip, fully chunked (dask), and hand-built conventions for coordinates autodetection would not pick (decoy pair), after warm / pickle. Also (operation sequences, mc/sequences.py): for 8 base datasets and every sequence `first [middle] query` over 36 operations (queries, in-place edits a user makes, transforms whose result is used next; quick length 2, thorough length 3) ending in one of this property's own queries, the answer on the one used object equals the answer on a never-used rebuild. Second phase: the first case of every distinct outcome and kind (thorough: every case, for expensive checks every kind) again with debug logging enabled, under numpy.errstate(all='ignore'), and in python -O child interpreters."
 )
 LEVEL_TEXT = ("every dataset of the family list x every scalar / vector / override form of the stated menu: patch k, value k "
               "and arrow k compared with the k-th valid cell's reference polygon, label and centre")
@@ -32,7 +33,7 @@ def bounds(tier):
     return {'datasets': 'builders.family_specs(tier) with defined geometry'}
 
 
-def cases(tier):
+def _cases_first_call(tier):
     out = []
     for spec in builders.family_specs(tier):
         if spec['family'] == 'cf2d' and spec.get('bounds') == 'derived' and spec.get('holes', 'none') != 'none':
@@ -47,7 +48,7 @@ def path_vertices(path):
     return [tuple(float(v) for v in p) for p in path.vertices]
 
 
-def run_case(case):
+def _run_case_first_call(case):
     import matplotlib
     matplotlib.use('Agg')
     import cartopy.crs
@@ -118,6 +119,19 @@ def run_case(case):
         c = collection_of(label, arg)
         if c is not None:
             check_collection(label, c, labels(botz, ()))
+    # an array computed from a variable keeps the variable's name and dimensions, not its values
+    c = collection_of('derived array with the name of a variable', ds['botz'] * 2 + 1)
+    if c is not None:
+        rec.nontrivial('derived-same-name')
+        check_collection('derived array with the name of a variable', c, labels(botz, ()) * 2 + 1)
+    # another time step of the full dataset, plotted through the convention of the surface / first-step dataset
+    if ds.sizes[time_dim] > 1 and not case.get('explicit_names'):
+        try:
+            surface = ds.isel({time_dim: 0})
+            c = lib(surface.ems.make_poly_collection, ds['eta'].isel({time_dim: 1}))
+            check_collection('a slice of the full dataset through a sliced dataset', c, labels(eta, (1,)))
+        except LibraryRaised as err:
+            rec.check(False, f"{fp}/raised", "plotting a slice of the full dataset through a sliced dataset raised", 'PolyCollection', str(err))
     # a slice of a variable with extra dimensions
     for t in range(ds.sizes[time_dim]):
         c = collection_of(f'eta time {t}', ds['eta'].isel({time_dim: t}))
@@ -225,3 +239,16 @@ def run_case(case):
         rec.check(False, f"{fp}/animation-raised", "animate_on_figure raised", 'animation', str(err))
     rec.outcome([truth.family, nface, len(holes)])
     return rec.result()
+
+
+def cases(tier):
+    # first calls on freshly built datasets, then operation sequences on one object (mc/sequences.py)
+    return _cases_first_call(tier) + sequences.cases_for(PROPERTY, tier)
+
+
+def run_case(case):
+    if case.get('part') == 'sequence':
+        rec = Recorder()
+        sequences.run_case(PROPERTY, case, rec)
+        return rec.result()
+    return _run_case_first_call(case)
